@@ -29,7 +29,7 @@ RATIOS = [[1.0], [0.5, 0.5], [0.25, 0.75], [0.5, 0.25, 0.25], [0.75, 0.25], [0.1
 # generation
 
 def gen_config(g):
-    seeds = [0, g.choice([1, 42, 7]), g.choice([2 ** 32 - 1, g.getrandbits(32)]), g.getrandbits(32)]
+    seeds = G.seed_alphabet(g)
     k = g.randint(2, len(APIS))
     apis = g.sample(APIS, k) if g.random() < 0.6 else list(APIS)
     all_faults = ["rng.draw", "rng.reseed", "rng.setstate", "rng.stdlib", "entropy", "call.fail", "gc", "lib.call"]
@@ -40,6 +40,10 @@ def gen_config(g):
     return {"clients": g.randint(1, 4), "length": g.randint(8, 60), "pmax": g.randint(1, 7),
             "seeds": seeds, "apis": apis, "faults": faults, "nsig": g.randint(3, 8),
             "late_bias": g.choice([0.5, 0.85, 1.0])}
+
+
+def rand_n(g):
+    return g.randint(1, 40) if g.random() < 0.94 else g.choice([100, 257, 1000, 2500])
 
 
 def gen_call(g, cfg, api, seed, mid=None):
@@ -58,14 +62,14 @@ def gen_call(g, cfg, api, seed, mid=None):
         if seed is None and g.random() < 0.3 and isinstance(spec["means"], dict) and "__tuple__" in spec["means"]:
             spec["seed"] = None
         rec["m"] = {"id": mid, "type": "lganm", "spec": spec}
-        rec["args"] = {"n": g.randint(1, 40), "do": G.lganm_ivs(g, p), "shift": G.lganm_ivs(g, p),
+        rec["args"] = {"n": rand_n(g), "do": G.lganm_ivs(g, p), "shift": G.lganm_ivs(g, p),
                        "noise": G.lganm_ivs(g, p)}
     elif api == "nd.sample":
         rec["m"] = {"id": mid, "type": "nd", "spec": G.nd_spec(g, p)}
-        rec["args"] = {"n": g.randint(1, 40)}
+        rec["args"] = {"n": rand_n(g)}
     elif api == "anm.sample":
         rec["m"] = {"id": mid, "type": "anm", "spec": G.anm_spec(g, p)}
-        rec["args"] = {"n": g.randint(1, 40), "do": G.anm_ivs(g, p), "shift": G.anm_ivs(g, p),
+        rec["args"] = {"n": rand_n(g), "do": G.anm_ivs(g, p), "shift": G.anm_ivs(g, p),
                        "noise": G.anm_ivs(g, p)}
     elif api == "gen.dag_avg_deg":
         p = g.randint(2, max(2, pmax + 3))
@@ -148,7 +152,7 @@ def gen_filler(g, cfg, sigs, state):
                 "dist": g.choice(["normal", "uniform", "laplace", "random", "randint", "choice",
                                   "permutation", "shuffle", "mvn"]), "n": g.randint(1, 20)}
     if kind == "rng.reseed":
-        return {"op": "np.perturb", "kind": "reseed", "seed": g.choice(cfg["seeds"] + [g.getrandbits(32)])}
+        return {"op": "np.perturb", "kind": "reseed", "seed": G.seed_value(g.choice(cfg["seeds"] + [g.getrandbits(32)]))}
     if kind == "rng.setstate":
         if state["slots"] and g.random() < 0.6:
             return {"op": "np.perturb", "kind": "setstate", "slot": g.choice(state["slots"])}
@@ -239,6 +243,14 @@ def generate(run_seed):
             # two immediately consecutive, identical unseeded sampling calls (non-degeneracy)
             api = sc.choice(SAMPLERS)
             rec = gen_call(g, cfg, api, None)
+            shared = [s for s in sigs if s["api"] == api and s["m"].get("id") and s["sig"] in evaluated]
+            if shared and sc.random() < 0.5:
+                # on a long-lived model that already served seeded calls
+                rec["m"] = copy.deepcopy(sc.choice(shared)["m"])
+                if api != "nd.sample":
+                    rec["args"] = dict(rec["args"], do="omit", shift="omit", noise="omit")
+                rec["on_shared"] = True
+                rec["nd"] = nd_eligible(rec)
             rec["c"] = c
             ops.append(rec)
             ops.append(copy.deepcopy(rec))
@@ -400,8 +412,10 @@ def oracles(w, pristine_budget):
                 w.probes["api:" + variant(rec).split("/")[0]] += 1
                 for part in variant(rec).split("/")[1:]:
                     w.probes["variant:" + rec["api"] + "/" + part] += 1
-                if rec["seed"] == 0:
+                if G.seed_value(rec["seed"]) == 0:
                     w.probes["pair.seed0"] += 1
+                if G.seed_is_numpy(rec["seed"]):
+                    w.probes["pair.numpy_integer_seed"] += 1
                 if "rng.reseed" in kinds:
                     w.probes["pair.sep.reseed"] += 1
                 if kinds and kinds <= {"rng.draw", "gc", "rng.stdlib", "rng.getstate"} and "rng.draw" in kinds:
@@ -438,6 +452,8 @@ def oracles(w, pristine_budget):
         if rb.get("nd") and ra.get("nd") and rb["op"] == "call" and rb.get("seed") is None and same_call(ra, rb) \
                 and a["ok"] and b["ok"]:
             w.probes["nd:" + rb["api"]] += 1
+            if rb.get("on_shared"):
+                w.probes["nd.on_model_with_seeded_history"] += 1
             if a["od"] == b["od"]:
                 w.violate("unseeded_degenerate", SITE[rb["api"]],
                           {"steps": [a["i"], b["i"]], "digest": a["od"]}, step=b["i"])
@@ -486,9 +502,9 @@ ASSUMPTIONS = [
 
 REQUIRED_PROBES = ["pair.nontrivial", "pair.seed0", "pair.sep.reseed", "pair.sep.draw_only",
                    "pair.sep.failed_seeded_call", "pair.sep.entropy", "pair.sep.py_random", "pair.sep.setstate",
-                   "pair.sep.intervened_call_on_shared_model", "pair.different_clients"] + \
+                   "pair.sep.intervened_call_on_shared_model", "pair.different_clients", "pair.numpy_integer_seed"] + \
                   ["api:" + a for a in APIS] + ["noise:" + n for n in G.NOISE_FACTORIES] + \
-                  ["nd:" + a for a in SAMPLERS]
+                  ["nd:" + a for a in SAMPLERS] + ["nd.on_model_with_seeded_history"]
 
 
 def simplify(op):
